@@ -282,6 +282,11 @@ def generate(rng, cfg):
             if rng.random() < 0.4:
                 y = rng.choice([1995, 2010, 2019, 2020])
                 window = [[y, rng.randint(1, 12), 1], [y + rng.choice([0, 0, 1, 5]), rng.randint(1, 12), 28]]
+                if rng.random() < 0.3:
+                    # days that only some years have, month ends, windows of a few days
+                    y = rng.choice([1996, 2020, 2024])
+                    window = [rng.choice([[y, 2, 29], [y, 2, 29], [y, 12, 31], [y, 1, 31]]), None]
+                    window[1] = rng.choice([[y, rng.randint(3, 12), 28], [y + 1, 2, 28], [y + 4, 2, 29], window[0]])
                 if window[1] < window[0]:
                     window[1] = window[0]
             wkind = rng.choice(["date", "date", "naive-dt", "aware-zi", "aware-pytz"]) if window else "date"
